@@ -30,7 +30,9 @@
 (*   none | unknown(point) | wrongtype(leaf) | range(leaf, bad value) |    *)
 (*   ph(leaf, env|property, set|unset) | emb(str leaf) | phnokey(str leaf, *)
 (*   ${property:file} without #key) | misspell(leaf, near miss of a       *)
-(*   documented key) | phadv (placeholder against adversarial property    *)
+(*   documented key) | phmulti / phmultisep (several placeholders in one  *)
+(*   value, resolvable and not, in every position) |                       *)
+(*   phadv (placeholder against adversarial property                       *)
 (*   files / environments) | absent(leaf) |                                *)
 (*   range = every VALUE CLASS of every documented constraint, inside and  *)
 (*   outside, with the boundary values.                                    *)
@@ -51,6 +53,8 @@ CONSTANTS
     ValidateTags,    \* TRUE: validation tags are applied (also inside plugin configs)
     StrictTypes,     \* TRUE: no weakly typed input
     UnsetIsError,    \* TRUE: a placeholder naming an unset variable / missing property is an error
+    AnyUnresolved,   \* TRUE: ... whichever of SEVERAL placeholders of one value it is (FALSE: only the last one's failure counts - wrong)
+    OneOfWhole,      \* TRUE: a oneof option is compared as a whole with each allowed word (FALSE: a value made of allowed words passes - wrong)
     DiscardDefault,  \* "true": what the CLI reader puts in when discard_overflow is absent
     StdinDefault,    \* TRUE: ... also when the configuration arrives on standard input (FALSE: only for files - wrong)
     ReflPoints       \* struct nodes found by reflection over the real config structs: seq of [v, p]
@@ -89,9 +93,19 @@ Min0F(pre, p) == << BadV(pre, p, "float", "-1", "min=0"), BadV(pre, p, "float", 
 Min0I(pre, p) == << BadV(pre, p, "int", "-1", "min=0"), Same(pre, p, "int", "0", "min=0"), Same(pre, p, "int", "1", "min=0") >>
 Min1I(pre, p) == << BadV(pre, p, "int", "-1", "min=1"), BadV(pre, p, "int", "0", "min=1"),
                     Same(pre, p, "int", "1", "min=1"), Same(pre, p, "int", "2", "min=1") >>
-FilterC(pre) == LET p == <<"answlog", "filter">> e == "all | warning | error" IN <<
+\* oneof: the value is EXACTLY one of the documented words.  Outside: near misses, case variants, substrings of a word, a padded
+\* word, and values MADE OF allowed words (what somebody writes who thinks filters can be combined) in every order / separator.
+OneOfWords == "oneof: several allowed words"
+FilterC(pre) == LET p == <<"answlog", "filter">> e == "all | warning | error" w == OneOfWords IN <<
     Same(pre, p, "str", "all", e), Same(pre, p, "str", "warning", e), Same(pre, p, "str", "error", e),
-    BadV(pre, p, "str", "errors", e), BadV(pre, p, "str", "Error", e), BadV(pre, p, "str", "ALL", e), BadV(pre, p, "str", "err", e) >>
+    BadV(pre, p, "str", "errors", e), BadV(pre, p, "str", "Error", e), BadV(pre, p, "str", "ALL", e), BadV(pre, p, "str", "err", e),
+    BadV(pre, p, "str", "All", e), BadV(pre, p, "str", "WARNING", e), BadV(pre, p, "str", "eRRor", e),
+    BadV(pre, p, "str", "al", e), BadV(pre, p, "str", "warn", e), BadV(pre, p, "str", "arn", e), BadV(pre, p, "str", "rror", e),
+    BadV(pre, p, "str", " all", e), BadV(pre, p, "str", "all ", e), BadV(pre, p, "str", " warning ", e), BadV(pre, p, "str", " ", e),
+    BadV(pre, p, "str", "all warning", w), BadV(pre, p, "str", "warning error", w), BadV(pre, p, "str", "all warning error", w),
+    BadV(pre, p, "str", "all error", w), BadV(pre, p, "str", "error all", w), BadV(pre, p, "str", "warning all", w),
+    BadV(pre, p, "str", "all  warning", w), BadV(pre, p, "str", "all,warning", w), BadV(pre, p, "str", "all|warning", w),
+    BadV(pre, p, "str", "allwarning", w), BadV(pre, p, "str", "all all", w) >>
 
 ---------------------------------------------------------------------------
 (* component templates *)
@@ -375,6 +389,32 @@ AdvOf(c) == IF c.kind # "phadv" THEN NoAdv
                   lines |-> IF c.src = "property" THEN AdvFile(c.x).lines ELSE <<>>,
                   envs |-> IF c.src = "env" THEN EnvSets ELSE <<>>, req |-> AdvReq(c.src, c.x)]
 
+\* SEVERAL PLACEHOLDERS IN ONE VALUE (docs/eng/config.md shows placeholders inside longer strings; nothing limits a value to one).
+\* A value is a sequence of placeholders: "val" = its variable / property holds the leaf's value, "empty" = set to the empty
+\* string, "unset" = the variable is not set / the property is missing.  EVERY placeholder is judged: the value is an error iff
+\* ANY of them cannot be resolved - first, middle or last; if all resolve the option gets the concatenation (= the leaf's value).
+\* src: all from the environment | all from the property file | mixed (alternating env, property).
+\* phmultisep: the same with literal text around and between the placeholders ("pre-" .. "-" .. "-post"), on plain string options.
+MultiPatterns == << <<"val", "empty">>, <<"empty", "val">>, <<"empty", "val", "empty">>,
+                    <<"unset", "val">>, <<"val", "unset">>, <<"unset", "empty", "val">>, <<"empty", "unset", "val">>,
+                    <<"empty", "val", "unset">>, <<"unset", "unset">> >>
+MultiSrcs == {"env", "property", "mixed"}
+MultiKinds == {"phmulti", "phmultisep"}
+MultiParts(c) == MultiPatterns[c.x]
+MultiAnyUnset(pt) == \E i \in 1..Len(pt) : pt[i] = "unset"
+MultiLastUnset(pt) == pt[Len(pt)] = "unset"
+\* what a plain string option holds after substitution when literal text stands around the placeholders (val = "mid")
+MultiSepValue(x) == CASE x = 1 -> "pre-mid--post" [] x = 2 -> "pre--mid-post" [] x = 3 -> "pre--mid--post" [] OTHER -> ""
+\* what the driver needs: the parts with the source of each, the literal text
+NoMulti == [parts |-> <<>>, pre |-> "", sep |-> "", post |-> ""]
+MultiOf(c) == IF c.kind \notin MultiKinds THEN NoMulti
+              ELSE [parts |-> [i \in 1..Len(MultiParts(c)) |->
+                                  [what |-> MultiParts(c)[i],
+                                   src |-> IF c.src = "mixed" THEN (IF i % 2 = 1 THEN "env" ELSE "property") ELSE c.src]],
+                    pre |-> IF c.kind = "phmultisep" THEN "pre-" ELSE "",
+                    sep |-> IF c.kind = "phmultisep" THEN "-" ELSE "",
+                    post |-> IF c.kind = "phmultisep" THEN "-post" ELSE ""]
+
 \* the values an unknown key is given: t = how the driver renders it, v = its text
 UnknownValueKinds == {"int", "str", "bool", "null", "emptystr", "emptymap", "emptylist", "nestedmap"}
 UnknownValue(vk) == CASE vk = "int" -> "1" [] vk = "str" -> "some text" [] vk = "bool" -> "true" [] OTHER -> ""
@@ -406,6 +446,16 @@ CasesOf(V) ==
                                           /\ (x[1] = "full" \/ ~\E q \in V.mwmin : IsPrefix(q, V.leaves[x[2]].p))}}
     \cup {MkCase(V, "full", "emb", V.leaves[j].p, j, "env", TRUE) : j \in {i \in 1..n : /\ V.leaves[i].k = "str" /\ V.leaves[i].fl = "opt"
                                                                                             /\ ~\E b \in 1..Len(Bads(V)) : Bads(V)[b].p = V.leaves[i].p}}
+    \* several placeholders in one value, in every position: patterns with an unresolvable one for every placeholder-capable
+    \* leaf (the outcome is an error whatever the kind), the all-resolved patterns for every string leaf
+    \cup {[MkCase(V, "full", "phmulti", V.leaves[j].p, j, src, ~MultiAnyUnset(MultiPatterns[x])) EXCEPT !.x = x] :
+              <<j, src, x>> \in {t \in (1..n) \X MultiSrcs \X (1..Len(MultiPatterns)) :
+                                    /\ V.leaves[t[1]].k \in PhKinds
+                                    /\ (V.leaves[t[1]].k = "str" \/ MultiAnyUnset(MultiPatterns[t[3]]))}}
+    \cup {[MkCase(V, "full", "phmultisep", V.leaves[j].p, j, src, ~MultiAnyUnset(MultiPatterns[x])) EXCEPT !.x = x] :
+              <<j, src, x>> \in {t \in (1..n) \X MultiSrcs \X (1..Len(MultiPatterns)) :
+                                    /\ V.leaves[t[1]].k = "str" /\ V.leaves[t[1]].fl = "opt"
+                                    /\ ~\E b \in 1..Len(Bads(V)) : Bads(V)[b].p = V.leaves[t[1]].p}}
     \cup {MkCase(V, "full", "misspell", V.leaves[j].p, j, Misspellings[x].m, TRUE) :
               <<j, x>> \in {jx \in (1..n) \X (1..Len(Misspellings)) : KeyPos(V.leaves[jx[1]].p, Misspellings[jx[2]].k) > 0}}
     \cup {MkCase(V, "full", "emblist", V.leaves[j].p, j, "env", TRUE) : j \in {i \in 1..n : V.leaves[i].k = "strlist"}}
@@ -428,6 +478,7 @@ Delta(c) ==
                                      del |-> <<>>]
          [] c.kind = "phrange"   -> [set |-> <<[p |-> c.p, t |-> "str", v |-> "${env:VERIF_PH}"]>>, del |-> <<>>]
          [] c.kind = "phadv"     -> [set |-> <<[p |-> c.p, t |-> "str", v |-> "@ADVPH@"]>>, del |-> <<>>]   \* driver: ${src:[file#]req}
+         [] c.kind \in MultiKinds -> [set |-> <<[p |-> c.p, t |-> "str", v |-> "@MULTIPH@"]>>, del |-> <<>>]  \* driver: rendered from MultiOf(c)
          [] c.kind = "misspell"  -> LET x == CHOOSE x \in 1..Len(Misspellings) : Misspellings[x].m = c.src
                                         n == KeyPos(c.p, Misspellings[x].k)
                                     IN [set |-> <<[p |-> Respell(c.p, n, c.src), t |-> RT(lf.k), v |-> lf.r]>>, del |-> <<c.p>>]
@@ -436,7 +487,8 @@ Delta(c) ==
          [] c.kind = "emb"       -> [set |-> <<[p |-> c.p, t |-> "str", v |-> "pre-${env:VERIF_PH}-post"]>>, del |-> <<>>]
          [] c.kind \in {"absent", "dropcomp"} -> [set |-> <<>>, del |-> <<c.p>>]
          [] OTHER                -> [set |-> <<>>, del |-> <<>>]
-PhValue(c) == IF c.kind = "ph" THEN Variants[VarByName(c.v)].leaves[c.i].r
+PhValue(c) == IF c.kind = "ph" \/ c.kind = "phmulti" THEN Variants[VarByName(c.v)].leaves[c.i].r
+              ELSE IF c.kind = "phmultisep" THEN "mid"
               ELSE IF c.kind = "phrange" THEN Bads(Variants[VarByName(c.v)])[c.i].r
               ELSE IF c.kind \in {"emb", "emblist"} THEN "mid" ELSE ""
 
@@ -472,6 +524,9 @@ DocDefault(lf, via) == IF lf.p[Len(lf.p)] = "discard_overflow"
 \* stage 1 - placeholders (VariableInjectHook runs first in the hook chain)
 Substitute(c) == IF \/ (c.kind = "ph" /\ ~c.set /\ UnsetIsError) \/ c.kind = "phnokey"
                     \/ (c.kind = "phadv" /\ ~AdvLookup(c.src, c.x).found /\ UnsetIsError)
+                    \* the resolver runs for every placeholder of the value; the first failure is the value's failure
+                    \/ (c.kind \in MultiKinds /\ UnsetIsError
+                           /\ (IF AnyUnresolved THEN MultiAnyUnset(MultiParts(c)) ELSE MultiLastUnset(MultiParts(c))))
                  THEN "error" ELSE "ok"
 \* stage 2 - typed decoding of every given value
 TypedDecode(c) == IF c.kind = "wrongtype" /\ StrictTypes THEN "error" ELSE "ok"
@@ -483,7 +538,8 @@ RequiredMissing(c) ==
     \/ c.kind = "dropcomp"
     \/ c.kind \in {"absent", "nullval"} /\ V.leaves[c.i].fl = "req"
     \/ c.kind = "nullcomp"
-Validation(c) == IF ValidateTags /\ ((c.kind \in {"range", "phrange"} /\ ~Bads(Variants[VarByName(c.v)])[c.i].ok) \/ RequiredMissing(c)) THEN "error" ELSE "ok"
+OutsideClass(b) == ~b.ok /\ (OneOfWhole \/ b.why # OneOfWords)
+Validation(c) == IF ValidateTags /\ ((c.kind \in {"range", "phrange"} /\ OutsideClass(Bads(Variants[VarByName(c.v)])[c.i])) \/ RequiredMissing(c)) THEN "error" ELSE "ok"
 
 \* WHEN an error is reported.  The sections behind factory-typed fields whose registered constructor builds a component
 \* (every schedule under `rps`; the grpc and grpc/scenario guns) are decoded when the factory is CALLED - by the engine at
@@ -506,6 +562,8 @@ ValueOf(c, via, V, j) ==
     LET lf == V.leaves[j] IN
     IF c.kind \in {"absent", "nullval"} /\ IsPrefix(c.p, lf.p) THEN DocDefault(lf, via)
     ELSE IF c.kind = "ph" /\ c.i = j THEN lf.f
+    ELSE IF c.kind = "phmulti" /\ c.i = j THEN lf.f
+    ELSE IF c.kind = "phmultisep" /\ c.i = j THEN MultiSepValue(c.x)
     ELSE IF c.kind = "phadv" /\ c.i = j THEN AdvLookup(c.src, c.x).v
     ELSE IF c.kind \in {"range", "phrange"} /\ c.p = lf.p THEN Bads(V)[c.i].v
     ELSE IF c.kind = "emb" /\ c.i = j THEN "pre-mid-post"
@@ -543,6 +601,8 @@ Constrained == Done /\ (\/ (cs.kind \in {"range", "phrange"} /\ ~Bads(TheV)[cs.i
                          \/ cs.kind = "nullcomp" \/ (cs.kind \in {"absent", "nullval"} /\ TheV.leaves[cs.i].fl = "req")) => err
 \* a placeholder naming an unset variable / missing property is an error; a set one is not
 Placeholders == /\ (Done /\ cs.kind \in {"ph", "emb", "emblist"} => (err <=> ~cs.set))
+                \* several placeholders in one value: an error iff ANY of them cannot be resolved, wherever it stands
+                /\ (Done /\ cs.kind \in MultiKinds => (err <=> \E i \in 1..Len(MultiPatterns[cs.x]) : MultiPatterns[cs.x][i] = "unset"))
                 /\ (Done /\ cs.kind = "phnokey" => err)      \* a malformed property placeholder is an error (not a crash)
                 \* exact key / exact name, whatever else the file / the environment holds
                 /\ (Done /\ cs.kind = "phadv" /\ cs.src = "property" =>
@@ -557,7 +617,7 @@ NoSpuriousError == Done /\ (\/ cs.kind = "none" \/ (cs.kind \in {"absent", "null
 DefaultsKept == Done /\ ~err =>
     \A j \in 1..Len(TheV.leaves) :
         LET lf == TheV.leaves[j]
-            given == /\ (Given(TheV, cs.base, j) \/ (cs.kind \in {"ph", "emb", "emblist"} /\ cs.i = j))
+            given == /\ (Given(TheV, cs.base, j) \/ (cs.kind \in {"ph", "emb", "emblist"} \cup MultiKinds /\ cs.i = j))
                      /\ ~(cs.kind \in {"absent", "nullval"} /\ IsPrefix(cs.p, lf.p))
                      /\ (cs.base = "full" \/ ~\E q \in TheV.mwmin : IsPrefix(q, lf.p))
             v == ValueOf(cs, via, TheV, j)
@@ -565,6 +625,7 @@ DefaultsKept == Done /\ ~err =>
            ELSE IF cs.kind \in {"range", "phrange"} /\ cs.p = lf.p THEN v = Bads(TheV)[cs.i].v      \* accepted boundary value is kept
            ELSE IF given THEN v = (CASE cs.kind = "emb" /\ cs.i = j -> "pre-mid-post"
                                 [] cs.kind = "emblist" /\ cs.i = j -> "[User-Agent: mid]|[X-Other: y]"
+                                [] cs.kind = "phmultisep" /\ cs.i = j -> MultiSepValue(cs.x)
                                 [] OTHER -> lf.f)
            ELSE IF cs.base = "min" /\ \E q \in TheV.mwmin : IsPrefix(q, lf.p) THEN TRUE
            ELSE IF lf.p[Len(lf.p)] = "discard_overflow" THEN (IsCli(via) => v = "true")    \* every input channel
